@@ -114,6 +114,8 @@ def t_elem(e):
         return 'PATTERN "x"'
     if k == 'contained':
         return 'INCLUDES Other'
+    if k == 'ref':
+        return e['name']                 # a contained subtype written as a bare type reference (text only)
     raise ValueError(k)
 
 
